@@ -14,7 +14,7 @@ from z3 import And, BoolVal, Function, If, Implies, Int, IntSort, Lambda, Not, O
 from vf import bounded as B
 from vf import prims as P
 from vf import prims_ext as PX
-from vf.common import new_exec, run_function
+from vf.common import multi_path_meta, new_exec, run_function
 from vf.engine import FV, UF, ArrS, Axis, Oblig, Path, T, same_size, toB, toI, toR
 from vf.proof import prove
 
@@ -111,7 +111,7 @@ def build_one(method, ysh, ash):
 
     def ob(name, goal, hyps, kind="post", meta=None):
         obs.append(Oblig(f"C13/{method}/{name}{tag}", hyps, goal, kind, ("C13",), dict({"key": f"C13/{method}/{name}"}, **(meta or {}))))
-    ob("single-normal-path", BoolVal(len(live) == 1 and len(outs) == 1), [], "post")
+    ob("single-normal-path", BoolVal(len(live) == 1 and len(outs) == 1), [], "post", multi_path_meta(outs))
     if len(live) != 1:
         return obs
     res, hy = live[0].value, live[0].path.pc
